@@ -18,40 +18,55 @@ Proof. exact read_length_write. Qed.
 Theorem c09_string_roundtrip :
   forall s rest resv, len s < two32 ->
   read_string {| r_in := write_string s ++ rest; r_resv := resv |}
-  = (Some s, {| r_in := rest; r_resv := Z.max resv (len s) |}).
+  = (Some s, {| r_in := rest; r_resv := Z.max (Z.max resv (Z.min (len s) 65536)) (2 * len s + 32) |}).
 Proof. exact read_string_write. Qed.
 
 (** ---- the whole dataset ----
     [save ver ctime now ws ds]: the file the writer produces at engine-clock [now] and wall
-    clock [ws]; [load chk now' wl b]: the databases a fresh engine holds after loading [b] at
+    clock [ws]; [load now' wl b]: the databases a fresh engine holds after loading [b] at
     engine-clock [now'] and wall clock [wl] ([chk]: overflow checks on/off).
     [rt_guard now ws wl ds] (decidable, Model/Rdb.v): 16 databases; per database fewer than
     2^32 keys, all distinct; every key not yet expired at the save has a length below 2^32, a
-    well-formed value (lengths and counts below 2^32; a list is non-empty and does not start
-    with the stream marker; set members / hash fields distinct; a sorted set is non-empty, has
-    no NaN score and is what the skip list holds (sorted by (score, member), no member twice); a stream is non-empty, its IDs strictly
-    increase from above 0-0, every entry has at least one field and distinct field names) and,
-    if it has a deadline, an expiry time that fits u64 and lies after the load time [wl].
+    well-formed value (lengths and counts below 2^32; a list is non-empty - it may start with the
+    stream marker, which the writer then doubles; set members / hash fields distinct; a sorted set is non-empty, has
+    no NaN score and is what the skip list holds (sorted by (score, member), no member twice); a stream (possibly
+    empty) has IDs strictly increasing from above 0-0 and distinct field names per entry (an entry may
+    have no field)) and,
+    if it has a deadline, an expiry time that fits u64 (nothing is required of the load time [wl]:
+    the deadline may pass while the server is down).
     [aged_db]: the keys alive at the save, the same values (streams without their consumer
     groups, with last_id and the ID atomics = last entry, length counter = number of entries), every deadline moved by the difference of the two
-    clocks' advances. *)
+    clocks' advances, but not before the load instant [now'] - a key whose deadline passed during the
+    downtime comes back already expired (absent to every reader, [c09_downtime_expired_absent]). *)
 Theorem c09_roundtrip :
-  forall chk ver ctime now now' ws wl ds,
+  forall ver ctime now now' ws wl ds,
   0 <= ws -> len ver < two32 -> rt_guard now ws wl ds = true ->
-  load_status (load chk now' wl (save ver ctime now ws ds)) = LOk /\
-  load_dbs (load chk now' wl (save ver ctime now ws ds)) = map (aged_db now now' ws wl) ds.
+  load_status (load now' wl (save ver ctime now ws ds)) = LOk /\
+  load_dbs (load now' wl (save ver ctime now ws ds)) = map (aged_db now now' ws wl) ds.
 Proof. exact roundtrip. Qed.
 
-(** Deadlines: a reloaded deadline differs from the saved one by exactly the difference between
-    the advance of the engine clock and the advance of the wall clock over the downtime; it is
-    preserved exactly when both clocks advance alike (the model's clocks are in ms: the
+(** Deadlines: the reloaded deadline is the saved one moved by the difference between the advance
+    of the engine clock and the advance of the wall clock over the downtime, and never earlier than
+    the load instant; while the key is still alive at the load the drift is exact, and the deadline
+    is preserved exactly when both clocks advance alike (the model's clocks are in ms: the
     implementation adds at most 1 ms of truncation at the save and at the load). *)
+Theorem c09_deadline :
+  forall now now' ws wl t, shift now now' ws wl t = Z.max now' (t + ((now' - now) - (wl - ws))).
+Proof. exact shift_max. Qed.
 Theorem c09_deadline_drift :
-  forall now now' ws wl t, shift now now' ws wl t - t = (now' - now) - (wl - ws).
+  forall now now' ws wl t, wl <= ws + (t - now) -> shift now now' ws wl t - t = (now' - now) - (wl - ws).
 Proof. exact shift_drift. Qed.
 Theorem c09_deadline_preserved :
-  forall now now' ws wl t, now' - now = wl - ws -> shift now now' ws wl t = t.
+  forall now now' ws wl t, now' - now = wl - ws -> now' <= t -> shift now now' ws wl t = t.
 Proof. exact shift_same_speed. Qed.
+
+(** Keys whose deadline passed while the server was down are absent after the restart: the
+    reloaded entry is expired (in the sense of Model/Types.v, i.e. for every reader, from the load
+    instant on) exactly when the expiry time written into the file is not after the load's wall clock. *)
+Theorem c09_downtime_expired_absent :
+  forall now now' ws wl e t, e_exp e = Some t ->
+  expired now' (aged_entry now now' ws wl e) = (ws + (t - now) <=? wl).
+Proof. exact aged_expired_iff. Qed.
 
 (** ---- non-vacuity: a dataset with all six types, binary content, TTLs, infinite and
     signed-zero scores satisfies the guard ---- *)
@@ -65,6 +80,11 @@ Definition f_nzero := 9223372036854775808.        (* -0.0 *)
 Definition example_ds : list db :=
   mkdb [ (bs "s", ent (VStr [0; 255; 13; 10]) (Some 101000));
          ([], ent (VList [bs "a"; marker; []]) None);
+         (bs "ml", ent (VList [marker; bs "1-1"; bs "1"; bs "f"; bs "v"]) None);     (* a list that looks like a stream *)
+         (bs "m1", ent (VList [marker]) (Some 300000));
+         (bs "es", ent (VStream {| s_entries := []; s_last := (0, 0); s_ams := 0; s_aseq := 0; s_len := 0; s_groups := [] |}) None);
+         (bs "nf", ent (VStream {| s_entries := [((5, 1), [(bs "f", bs "v")]); ((6, 0), [])]; s_last := (6, 0);
+                                   s_ams := 6; s_aseq := 0; s_len := 2; s_groups := [] |}) None);
          (marker, ent (VSet [bs "x"; bs "y"]) (Some 5000000));
          (bs "h", ent (VHash [(bs "f", bs "1"); (bs "g", [])]) None);
          (bs "z", ent (VZSet [(bs "a", f_nzero); (bs "b", 0); (bs "m", f_one); (bs "a2", f_pinf)]) None);
@@ -74,42 +94,37 @@ Definition example_ds : list db :=
 Example c09_guard_nonvacuous : rt_guard 1000 1700000000000 1700000060000 example_ds = true.
 Proof. vm_compute. reflexivity. Qed.
 Example c09_roundtrip_example :
-  load_status (load true 61000 1700000060000 (save (bs "0.1.0") 1700000000 1000 1700000000000 example_ds)) = LOk.
+  load_status (load 61000 1700000060000 (save (bs "0.1.0") 1700000000 1000 1700000000000 example_ds)) = LOk.
 Proof. vm_compute. reflexivity. Qed.
 
-(** ---- what the guard excludes: each class is refuted on the model (and reproduced on the
-    implementation by the witnesses of known_findings.json) ---- *)
-
-(** class expired-reloaded-immortal (DESIGN F-09a): a key whose deadline passed during the
-    downtime is present after the restart, and has no deadline at all *)
-Example c09_expired_reloaded_immortal_refuted :
-  let ds := in_db0 [(bs "k", ent (VStr (bs "v")) (Some 6000))] in      (* 5 s to live at the save *)
-  let r := load true 11000 1700000010000 (save (bs "0.1.0") 0 1000 1700000000000 ds) in   (* 10 s downtime *)
-  load_status r = LOk /\
-  get_entry (nth 0 (load_dbs r) empty_db) (bs "k") = Some (ent (VStr (bs "v")) None).
-Proof. vm_compute. split; reflexivity. Qed.
-
-(** class marker-collision (F-09b): a list whose head equals the stream marker *)
-Example c09_marker_list_refuted :
+(** the former classes marker-collision, empty-stream-lost, stream-entry-without-fields
+    (repaired by 6aaeb35, 1a77fe9, 31c6d8d) are inside the guard: the datasets "ml", "m1", "es", "nf"
+    above; a list that starts with the marker is written with the marker doubled *)
+Example c09_marker_list_example :
   let ds := in_db0 [(bs "l", ent (VList [marker; bs "x"]) None); (bs "after", ent (VStr (bs "v")) None)] in
-  let r := load true 0 1700000000000 (save (bs "0.1.0") 0 0 1700000000000 ds) in
-  load_status r = LErr /\ load_dbs r = empty_dbs.
+  rt_guard 0 1700000000000 1700000000000 ds = true /\
+  load_dbs (load 0 1700000000000 (save (bs "0.1.0") 0 0 1700000000000 ds)) = map (aged_db 0 0 1700000000000 1700000000000) ds.
 Proof. vm_compute. split; reflexivity. Qed.
 
-(** class empty-stream-lost: an emptied stream is not restored *)
-Example c09_empty_stream_refuted :
-  let ds := in_db0 [(bs "st", ent (VStream {| s_entries := []; s_last := (5, 1); s_ams := fst (5, 1); s_aseq := snd (5, 1); s_len := len ([] : list (sid * list (bytes * bytes))); s_groups := [] |}) None)] in
-  let r := load true 0 1700000000000 (save (bs "0.1.0") 0 0 1700000000000 ds) in
-  load_status r = LOk /\ load_dbs r = empty_dbs.
-Proof. vm_compute. split; reflexivity. Qed.
+(** ---- what the guard still excludes ---- *)
 
-(** class stream-entry-without-fields: the loader's entry loop stops early and the rest of the
-    stream is parsed as opcodes *)
-Example c09_stream_entry_without_fields_refuted :
-  let ds := in_db0 [(bs "st", ent (VStream {| s_entries := [((5, 1), [(bs "f", bs "v")]); ((6, 0), [])]; s_last := (6, 0); s_ams := fst (6, 0); s_aseq := snd (6, 0); s_len := len ([((5, 1), [(bs "f", bs "v")]); ((6, 0), [])] : list (sid * list (bytes * bytes))); s_groups := [] |}) None);
-                    (bs "zz", ent (VStr (bs "after")) None)] in
-  let r := load true 0 1700000000000 (save (bs "0.1.0") 0 0 1700000000000 ds) in
-  load_status r = LErr /\ get_entry (nth 0 (load_dbs r) empty_db) (bs "zz") = None.
+(** a key whose deadline passed during the downtime (repaired by e11d87f; was class
+    expired-reloaded-immortal): it is loaded with the deadline "now" and is expired at once *)
+Example c09_downtime_example :
+  let ds := in_db0 [(bs "k", ent (VStr (bs "v")) (Some 6000))] in      (* 5 s to live at the save *)
+  let r := load 11000 1700000010000 (save (bs "0.1.0") 0 1000 1700000000000 ds) in   (* 10 s downtime *)
+  load_status r = LOk /\
+  get_entry (nth 0 (load_dbs r) empty_db) (bs "k") = Some (ent (VStr (bs "v")) (Some 11000)) /\
+  expired 11000 (ent (VStr (bs "v")) (Some 11000)) = true.
+Proof. vm_compute. repeat split; reflexivity. Qed.
+
+(** a TTL beyond what u64 milliseconds can express saturates at the save (745a34c; was class
+    save-ttl-overflow): the key survives with the largest deadline the file can hold *)
+Example c09_ttl_saturation_example :
+  let ds := in_db0 [(bs "k", ent (VStr (bs "v")) (Some 18446744073709551615))] in
+  save_panics 0 1700000000000 ds = false /\
+  get_entry (nth 0 (load_dbs (load 0 1700000000000 (save (bs "0.1.0") 0 0 1700000000000 ds))) empty_db) (bs "k")
+  = Some (ent (VStr (bs "v")) (Some (18446744073709551615 - 1700000000000))).
 Proof. vm_compute. split; reflexivity. Qed.
 
 (** NaN scores: zadd refuses them (since the repair beb3269 of the NaN-node defect), so a dump
@@ -117,20 +132,11 @@ Proof. vm_compute. split; reflexivity. Qed.
     sorted set is cut short and every later key is lost.  The guard therefore excludes NaN. *)
 Example c09_nan_score_refuted :
   let ds := in_db0 [(bs "z", ent (VZSet [(bs "m", f_one); (bs "n", f_qnan)]) None); (bs "after", ent (VStr (bs "v")) None)] in
-  let r := load true 0 1700000000000 (save (bs "0.1.0") 0 0 1700000000000 ds) in
+  let r := load 0 1700000000000 (save (bs "0.1.0") 0 0 1700000000000 ds) in
   load_status r = LErr /\
   get_entry (nth 0 (load_dbs r) empty_db) (bs "z") = Some (ent (VZSet [(bs "m", f_one)]) None) /\
   get_entry (nth 0 (load_dbs r) empty_db) (bs "after") = None.
 Proof. vm_compute. repeat split; reflexivity. Qed.
-
-(** class save-ttl-overflow: the writer's expiry arithmetic overflows u64 (panic with overflow
-    checks; without them the timestamp wraps and the key is reloaded immortal) *)
-Example c09_save_ttl_overflow_refuted :
-  let ds := in_db0 [(bs "k", ent (VStr (bs "v")) (Some 18446744073709551615))] in
-  save_panics 0 1700000000000 ds = true /\
-  get_entry (nth 0 (load_dbs (load false 0 1700000000000 (save (bs "0.1.0") 0 0 1700000000000 ds))) empty_db) (bs "k")
-  = Some (ent (VStr (bs "v")) None).
-Proof. vm_compute. split; reflexivity. Qed.
 
 (** lengths of 2^32 and more do not survive the 32-bit form ([len as u32]) *)
 Example c09_length_wrap_refuted :
@@ -141,7 +147,7 @@ Proof. vm_compute. reflexivity. Qed.
     the last entry *)
 Example c09_stream_last_id_not_persisted :
   let ds := in_db0 [(bs "st", ent (VStream {| s_entries := [((1, 1), [(bs "f", bs "v")])]; s_last := (9, 9); s_ams := fst (9, 9); s_aseq := snd (9, 9); s_len := len ([((1, 1), [(bs "f", bs "v")])] : list (sid * list (bytes * bytes))); s_groups := [] |}) None)] in
-  let r := load true 0 1700000000000 (save (bs "0.1.0") 0 0 1700000000000 ds) in
+  let r := load 0 1700000000000 (save (bs "0.1.0") 0 0 1700000000000 ds) in
   get_entry (nth 0 (load_dbs r) empty_db) (bs "st")
   = Some (ent (VStream {| s_entries := [((1, 1), [(bs "f", bs "v")])]; s_last := (1, 1); s_ams := fst (1, 1); s_aseq := snd (1, 1); s_len := len ([((1, 1), [(bs "f", bs "v")])] : list (sid * list (bytes * bytes))); s_groups := [] |}) None).
 Proof. vm_compute. reflexivity. Qed.
